@@ -93,7 +93,7 @@ static void cb_reset(cb_t *c, uint64_t seed, uint64_t idx, const int *script, in
 }
 
 static unsigned long long n_eval, n_ops, n_gen, n_feed, n_reseed, n_setlimit, n_events, n_auto_events, n_bytes_out,
-    n_bytes_cmp, n_status, n_twin, n_seq_exh, n_budget_segments, n_null_runs, n_patterns, n_distinct_blocks_checked;
+    n_bytes_cmp, n_status, n_twin, n_seq_exh, n_budget_segments, n_null_runs, n_patterns, n_distinct_blocks_checked, n_long_streams;
 static unsigned long long max_since = 0;
 
 static uint8_t *g_out = NULL, *g_sent = NULL, *g_exp = NULL;
@@ -230,6 +230,51 @@ static void model_history(const args_t *a, long idx)
     tinyjambu_prng_free(&st);
 }
 
+/* The DRBG addition V + H + C + counter carries out of the low 32 bits only with probability counter / 2^32 per block:
+ * short histories practically never exercise it.  At the maximum limit the counter reaches 32768, and one MiB of
+ * output hits such a carry with probability ~1/8; every stream below is 1 MiB (+ a tail) checked against the shadow. */
+static void model_long_stream(const args_t *a, long idx)
+{
+    rng_t r = rng_for(a->seed, 0x10C6, (uint64_t)idx);
+    tinyjambu_prng_state_t st;
+    m_drbg_t sh;
+    static cb_t cb;
+    size_t total = ((size_t)1 << 20) + 32 * (size_t)(idx % 5), pos = 0, evi;
+    uint8_t blk[32];
+    set_case("{\"h\":\"prng\",\"mode\":\"model-long-stream\",\"i\":%ld,\"limit\":1048576,\"bytes\":%zu}", idx, total);
+    ++n_eval;
+    cls_add(mix64(0x10C6, (uint64_t)idx));
+    if (idx % 7 == 0 || a->only >= 0) emit_sample();
+    cb_reset(&cb, a->seed, 0x100000u + (uint64_t)idx, NULL, 0, 1);
+    tinyjambu_prng_init_user(&st, entropy_cb, &cb, NULL, 0);
+    m_drbg_init(&sh, cb.ev[0].after, NULL, 0);
+    tinyjambu_prng_set_reseed_limit(&st, 1048576); m_drbg_set_limit(&sh, 1048576);
+    evi = 1;
+    while (pos < total) {
+        size_t n = 4096 + 32 * rnd(&r, 3), q;
+        if (n > total - pos) n = total - pos;
+        lib_generate(&st, &cb, n, &r);
+        for (q = 0; q < n; q += 32) {
+            size_t l = n - q < 32 ? n - q : 32;
+            if (m_drbg_needs_reseed(&sh)) {
+                if (evi >= cb.nev || cb.ev[evi].off != q) { emit_viol("auto-reseed-missing-or-misplaced", "long stream: expected an entropy request at stream offset %zu", pos + q); return; }
+                m_drbg_reseed(&sh, cb.ev[evi].after); ++evi;
+            }
+            m_drbg_block(&sh, blk, l);
+            if (memcmp(blk, g_out + q, l)) {
+                emit_viol("drbg-output-mismatch:long-stream", "1 MiB stream at the maximum reseed limit differs from the shadow Hash_DRBG at stream offset %zu (reseed counter %llu)", pos + q, (unsigned long long)sh.counter - 1);
+                return;
+            }
+        }
+        if (evi != cb.nev) { emit_viol("unexpected-entropy-request", "long stream: entropy request the documented algorithm does not make"); return; }
+        n_bytes_cmp += n;
+        pos += n;
+    }
+    n_events += cb.nev;
+    ++n_long_streams;
+    tinyjambu_prng_free(&st);
+}
+
 /* "never from the new material alone": different initial entropy, identical later material -> different streams */
 static void model_relational(const args_t *a, long idx)
 {
@@ -333,8 +378,11 @@ static void budget_random(const args_t *a, long idx)
     int nops = 5 + (int)rnd(&r, 40), i, big = (idx % 17 == 0);   /* 17: coprime with the batch count, so big runs spread over all batches */
     char hist[300] = ""; size_t hl = 0;
     uint8_t fed[64];
+    static const int ZERO_FIRST[4] = {0, 32, 0, 7};
     ++n_eval;
-    cb_reset(&cb, a->seed, (uint64_t)idx, NULL, 0, 0);
+    /* every fifth run: the source delivers nothing at instantiation (and again at the third request, 7 bytes at the
+     * fourth); the byte budget between REQUESTS holds whatever the source answers */
+    cb_reset(&cb, a->seed, (uint64_t)idx, (idx % 5 == 3) ? ZERO_FIRST : NULL, (idx % 5 == 3) ? 4 : 0, 0);
     tinyjambu_prng_init_user(&st, entropy_cb, &cb, NULL, 0);
     for (i = 0; i < nops; ++i) {
         int k = (int)rnd(&r, 10);
@@ -593,6 +641,7 @@ int main(int argc, char **argv)
     if (!strcmp(a.mode, "model")) {
         for (i = 0; i < a.p1; ++i, ++idx) if (mine(&a, idx)) model_history(&a, idx);
         for (i = 0; i < a.p2; ++i, ++idx) if (mine(&a, idx)) model_relational(&a, idx);
+        for (i = 0; i < a.p3; ++i, ++idx) if (mine(&a, idx)) model_long_stream(&a, idx);
     } else if (!strcmp(a.mode, "budget")) {
         int len, seq[8];
         for (len = 0; len <= a.p1; ++len) {
@@ -631,7 +680,7 @@ int main(int argc, char **argv)
     emit_stat("automatic_reseed_events_predicted", n_auto_events); emit_stat("bytes_generated", n_bytes_out); emit_stat("bytes_compared_with_shadow", n_bytes_cmp);
     emit_stat("seed_status_judged", n_status); emit_stat("twin_feed_runs", n_twin); emit_stat("exhaustive_sequences", n_seq_exh);
     emit_stat("budget_segments_checked", n_budget_segments); emit_max("max_bytes_between_requests", max_since);
-    emit_stat("null_callback_child_runs", n_null_runs); emit_stat("delivery_patterns", n_patterns); emit_stat("block_pairs_checked_distinct", n_distinct_blocks_checked);
+    emit_stat("max_limit_megabyte_streams_checked", n_long_streams); emit_stat("null_callback_child_runs", n_null_runs); emit_stat("delivery_patterns", n_patterns); emit_stat("block_pairs_checked_distinct", n_distinct_blocks_checked);
     finish();
     return 0;
 }
